@@ -72,6 +72,8 @@ type c15Scenario struct {
 	burnOld  string // none | some | many
 	burnNew  string
 	mintPrev string
+	// the mint address is one whose key the harness holds, and it spends in the mint and mint-burn blocks
+	mintKey bool
 }
 
 func c15Scenarios(thorough bool) []c15Scenario {
@@ -128,6 +130,9 @@ func c15Scenarios(thorough bool) []c15Scenario {
 			e.V204Burn = e.V204 + 20
 			e.PIP10 = e.V204Burn + 10
 			out = append(out, c15Scenario{name: fmt.Sprintf("late/v202-at-432+%d/holdings-%s", off, hold), class: "late", era: e, tip: e.PIP10 + 5, burnNew: hold, mintPrev: hold, burnOld: "some"})
+			if off == 0 || off == 77 {
+				out = append(out, c15Scenario{name: fmt.Sprintf("late/v202-at-432+%d/holdings-%s/mint-address-spends", off, hold), class: "late-mintspends", era: e, tip: e.PIP10 + 5, burnNew: hold, mintPrev: hold, burnOld: "some", mintKey: true})
+			}
 		}
 	}
 	return out
@@ -149,6 +154,8 @@ func runC15(c *core.Ctx, r *core.Result) {
 	}
 }
 
+const c15MintKey = 901
+
 func c15One(c *core.Ctx, r *core.Result, sc c15Scenario) {
 	r.Eval()
 	r.NonTrivial(sc.name)
@@ -157,6 +164,11 @@ func c15One(c *core.Ctx, r *core.Result, sc c15Scenario) {
 	b := drive.NewBuilder(era)
 	A := AddrA
 	oldBurn, newBurn := OldBurn(), GlobalBurn()
+	if sc.mintKey {
+		// somebody holds the mint address' key (its holders distribute the 2.0.4 supply): use one the harness can sign with
+		defer func(old string) { node.GlobalMintAddress = old }(node.GlobalMintAddress)
+		node.GlobalMintAddress = kit.AddrStr(c15MintKey)
+	}
 	mint, _ := factom.NewFAAddress(node.GlobalMintAddress)
 	g := func(s drive.BlockSpec) drive.BlockSpec {
 		if s.Rates == nil {
@@ -244,8 +256,19 @@ func c15One(c *core.Ctx, r *core.Result, sc c15Scenario) {
 				credit(h, mint, "pUSD", 6e8, &t) // before the mint
 			}
 		}
-		graded := h%144 == 0 || h%144 == 143 || len(t) > 0 || h == era.DevRewards || h == era.V202 || h == era.V204 || h == era.V204Burn
+		var mintTx *fake.Entry
+		if sc.mintKey && (h == era.V204 || h == era.V204Burn || h == era.V204+7) {
+			// at the mint height the supply is spendable or not (either order within the block keeps the supply exact: checked
+			// below as mint + recipient); between the two heights it is; at the burn height what is held is burned, all of it
+			e := b.Tx(c15MintKey, kit.Transfer(mint, "pUSD", 11e8, AddrC))
+			mintTx = &e
+		}
+		graded := h%144 == 0 || h%144 == 143 || len(t) > 0 || mintTx != nil || h == era.DevRewards || h == era.V202 || h == era.V204 || h == era.V204Burn
 		switch {
+		case mintTx != nil && len(t) > 0:
+			b.Add(g(drive.BlockSpec{TX: []fake.Entry{b.Tx(KA, t...), *mintTx}}))
+		case mintTx != nil:
+			b.Add(g(drive.BlockSpec{TX: []fake.Entry{*mintTx}}))
 		case len(t) > 0:
 			b.Add(g(drive.BlockSpec{TX: []fake.Entry{b.Tx(KA, t...)}}))
 		case graded:
@@ -263,6 +286,10 @@ func c15One(c *core.Ctx, r *core.Result, sc c15Scenario) {
 		devIdx[hex.EncodeToString(a[:])] = i
 	}
 	special = append(special, oldBurn, newBurn, mint)
+	kC := hex.EncodeToString(AddrC[:])
+	if sc.mintKey {
+		special = append(special, AddrC)
+	}
 	dir := drive.Scratch("c15")
 	run := &Run{B: b, Dir: dir, DBPath: dir + "/db"}
 	defer run.Close()
@@ -296,6 +323,9 @@ func c15One(c *core.Ctx, r *core.Result, sc c15Scenario) {
 			continue
 		}
 		for a, bal := range cur {
+			if a == kC {
+				continue // only the recipient of the mint address' own transfers
+			}
 			assets := map[string]bool{}
 			for x := range bal {
 				assets[x] = true
@@ -314,6 +344,10 @@ func c15One(c *core.Ctx, r *core.Result, sc c15Scenario) {
 			for x := range assets {
 				got := int64(bal[x]) - int64(prev[a][x])
 				want := explicit[h][a][x]
+				if a == kMint && sc.mintKey {
+					// what the mint address sent away itself is not issuance: count it back in
+					got += int64(cur[kC][x]) - int64(prev[kC][x])
+				}
 				if di, isDev := devIdx[a]; isDev && x == "PEG" && h >= era.DevRewards && h%144 == 0 {
 					pct := node.DeveloperRewardAddreses[di].DevRewardPct
 					unit := int64(2000e8 / 100)
@@ -353,6 +387,12 @@ func c15One(c *core.Ctx, r *core.Result, sc c15Scenario) {
 					problems = append(problems, fmt.Sprintf("h=%d %s %s: delta %d, scheduled %d", h, who, x, got, want))
 				}
 			}
+		}
+	}
+	if sc.mintKey {
+		h := era.V204 + 7
+		if per[h] != nil && per[h-1] != nil && int64(per[h][kC]["pUSD"])-int64(per[h-1][kC]["pUSD"]) != 11e8 {
+			panic("harness: C15 " + sc.name + ": the mint address' own transfer between mint and burn did not execute: the scenario is vacuous")
 		}
 	}
 	// developer totals per payout = exactly 2000 PEG (x144)
